@@ -11,7 +11,7 @@ BOTH['Clipper2Lib::Clipper64::BuildTree64('] = 'stub_buildtree64'
 META = dict(
   level_text='Stub-and-observe model checking of the sign and orientation bookkeeping of polygon offsetting: for all deltas, join types and flags, a positively oriented polygon group is offset with the signed delta of the call, the clean-up union uses FillRule::Positive with ReverseSolution/PreserveCollinear forwarded unchanged, and |delta| < 0.5 hands the input paths to the union unchanged. The region clauses (distance bands for round/miter/square/bevel joins, over-shrink) depend on sqrt/sin/cos/acos/atan2 arithmetic followed by a full union and are NOT addressed: no symbolic engine on this image encodes them.',
   level_note='Workers and the inner Clipper64 are recorders; path coordinates are concrete; only scalar parameters are symbolic. This is a mechanism-level claim about join-side/sign handling, not about geometry.',
-  functions=['ClipperOffset::OffsetPoint', 'GetPerpendic', 'ClipperOffset::ExecuteInternal', 'ClipperOffset::DoGroupOffset', 'ClipperOffset::Group::Group', 'ClipperOffset::CheckReverseOrientation'],
+  functions=['ClipperOffset::OffsetPoint', 'ClipperOffset::DoBevel', 'ClipperOffset::DoMiter', 'ClipperOffset::MiterLimit / temp_lim_', 'ClipperOffset::OffsetPoint', 'GetPerpendic', 'ClipperOffset::ExecuteInternal', 'ClipperOffset::DoGroupOffset', 'ClipperOffset::Group::Group', 'ClipperOffset::CheckReverseOrientation'],
   assumptions=['one or two groups of concrete small paths'],
   outside=['all region/distance clauses', 'DoRound/DoMiter/DoSquare/DoBevel geometry', 'normals other than the eight exact directions'],
 )
